@@ -214,6 +214,9 @@ pub struct Log {
     /// … and the limit was raised afterwards: the encoder is being used past a failed, not
     /// rolled-back name; the round-trip property does not speak about that
     pub poisoned: bool,
+    /// a nested `emit_iter` (inside an item) returned NotAllRecordsWritten: the outer `emit_iter`
+    /// propagates that error unchanged ("other errors propagate"), its count is the inner one
+    pub nested_naw: bool,
 }
 
 enum OpOut {
@@ -358,11 +361,19 @@ fn run_op(enc: &mut BinEncoder<'_>, op: &Op, stack: &mut Vec<AnyPlace>, log: &Re
             Some(AnyPlace::B3(p)) => unit(p.replace(enc, Blob(b.clone()))),
             Some(AnyPlace::B4(p)) => unit(p.replace(enc, Blob(b.clone()))),
             Some(AnyPlace::B12(p)) => unit(p.replace(enc, Blob(b.clone()))),
-            _ => return OpOut::Bad,
+            Some(other) => {
+                stack.push(other);
+                OpOut::Ok("noplace".into())
+            }
+            None => OpOut::Ok("noplace".into()),
         },
         Op::Rpu(v) => match stack.pop() {
             Some(AnyPlace::U(p)) => unit(p.replace(enc, *v)),
-            _ => return OpOut::Bad,
+            Some(other) => {
+                stack.push(other);
+                OpOut::Ok("noplace".into())
+            }
+            None => OpOut::Ok("noplace".into()),
         },
         Op::Rpl => match stack.pop() {
             // the RDLENGTH back-patch of `Record::emit`
@@ -370,7 +381,11 @@ fn run_op(enc: &mut BinEncoder<'_>, op: &Op, stack: &mut Vec<AnyPlace>, log: &Re
                 let len = enc.len_since_place(&p);
                 unit(p.replace(enc, len as u16))
             }
-            _ => return OpOut::Bad,
+            Some(other) => {
+                stack.push(other);
+                OpOut::Ok("noplace".into())
+            }
+            None => OpOut::Ok("noplace".into()),
         },
         Op::Lsp => match stack.last() {
             Some(AnyPlace::B1(p)) => OpOut::Ok(format!("={}", enc.len_since_place(p))),
@@ -379,7 +394,7 @@ fn run_op(enc: &mut BinEncoder<'_>, op: &Op, stack: &mut Vec<AnyPlace>, log: &Re
             Some(AnyPlace::B4(p)) => OpOut::Ok(format!("={}", enc.len_since_place(p))),
             Some(AnyPlace::B12(p)) => OpOut::Ok(format!("={}", enc.len_since_place(p))),
             Some(AnyPlace::U(p)) => OpOut::Ok(format!("={}", enc.len_since_place(p))),
-            None => return OpOut::Bad,
+            None => OpOut::Ok("noplace".into()),
         },
         Op::Trim => {
             enc.trim();
@@ -402,7 +417,11 @@ fn run_op(enc: &mut BinEncoder<'_>, op: &Op, stack: &mut Vec<AnyPlace>, log: &Re
                     if matches!(e, ProtoError::NotAllRecordsWritten { .. }) {
                         // names of the rolled-back item are gone
                         let len = enc.len();
-                        log.borrow_mut().names.retain(|n| n.start < len && n.end <= len);
+                        let mut l = log.borrow_mut();
+                        l.names.retain(|n| n.start < len && n.end <= len);
+                        if !top {
+                            l.nested_naw = true;
+                        }
                     }
                     OpOut::Err(e)
                 }
@@ -483,11 +502,16 @@ pub fn run_script(init: &Init, ops: &[Op], appending: &mut bool) -> ScriptResult
         };
         let mut stack = vec![];
         for (i, op) in ops.iter().enumerate() {
+            log.borrow_mut().nested_naw = false;
             match run_op(&mut enc, op, &mut stack, &log, true) {
                 OpOut::Ok(s) => statuses.push(s),
                 OpOut::Err(e) => {
                     if let (Op::Iter(_), ProtoError::NotAllRecordsWritten { count, .. }) = (op, &e) {
-                        naws.push((i, *count, snapshot(&enc)));
+                        // the prefix clause speaks about the emit_iter that rolled back, not about
+                        // an error passed through from an emit_iter nested inside one of its items
+                        if !log.borrow().nested_naw {
+                            naws.push((i, *count, snapshot(&enc)));
+                        }
                     }
                     statuses.push(err_str(&e));
                 }
@@ -634,6 +658,7 @@ pub fn exec(line: &str, rec: &mut Recorder, nontrivial: impl Fn(&Verdict) -> boo
         Ok(None) => rec.stat("skipped.bad-script"),
         Err(p) => {
             let idx = rec.case(line.to_string(), "panic".into());
+            rec.stat(if misuse { "line.encx" } else { "line.enc" });
             rec.stat("status.panic");
             if !misuse {
                 rec.fail(idx, format!("panic: {p}"), "");
